@@ -268,15 +268,27 @@ def run_history(rec, ops, base_draft):
                     if kind == "extend_override":
                         name = rng.choice(["vf-kw", "minLength", "type", "vf-other", "format"])
                         kw["validators"] = {name: kw_fn("e%d" % n)}
+                    same_tc = False
                     if kind == "extend_typechecker":
-                        kw["type_checker"] = st.pick(rng, "T")["obj"]
+                        if rng.random() < 0.35:
+                            kw["type_checker"] = C["obj"].TYPE_CHECKER      # explicit, but the parent's own
+                            same_tc = True
+                        else:
+                            kw["type_checker"] = st.pick(rng, "T")["obj"]
                     try:
                         new = validators.extend(C["obj"], **kw)
                     except TypeError:
                         new = None
                     if new is not None:
                         nrec = st.add("C", new, "%s(%s)" % (kind, C["label"]), extra=C["extra"])
-                        if kind == "extend_nochange":
+                        if kind == "extend_typechecker":
+                            # a different type checker may change type-related behaviour only
+                            for k in ("id_of", "meta", "keywords"):
+                                if nrec["vec"][k] != C["vec"][k]:
+                                    rec.violation("extend-lost-attributes", dict(case, step=n, parent=C["label"]),
+                                                  "extend(%s, type_checker=...) differs from its parent in %r" % (C["label"], k))
+                                    return
+                        if kind == "extend_nochange" or same_tc:
                             if nrec["vec"] != C["vec"]:
                                 diff = [k for k in nrec["vec"] if nrec["vec"][k] != C["vec"][k]]
                                 rec.violation("extend-without-changes-differs", dict(case, step=n, parent=C["label"]),
